@@ -46,6 +46,9 @@ type WorldOpts struct {
 	// pool price (an order better than the pool price would have been consumed by the trade that
 	// moved the pool there)
 	RealisticBook bool
+	// FullCandidate: candidate 0 (a validator) gets synthetic base-coin delegators until 1000, 999
+	// or 998 of its 1000 delegation slots are taken: most stakes around a drawn level, a few low ones
+	FullCandidate bool
 }
 
 // DefaultOpts is the general-purpose profile.
@@ -439,6 +442,23 @@ func GenWorld(t *rapid.T, o WorldOpts) *World {
 			c.Stakes = append(c.Stakes, types.Stake{Owner: GetUser(owner).Addr, Coin: coin, Value: val.String(), BipValue: val.String()})
 			total.Add(total, val)
 		}
+		if o.FullCandidate && i == 0 {
+			free := rapid.SampledFrom([]int{0, 0, 0, 1, 2}).Draw(t, "fullFree")
+			level := int64(rapid.IntRange(3_000, 6_000).Draw(t, "fullLevel"))
+			nLow := rapid.IntRange(0, 4).Draw(t, "fullLow")
+			lowBase := int64(rapid.IntRange(1_001, 1_500).Draw(t, "fullLowBase"))
+			for k := 0; len(c.Stakes) < 1000-free; k++ {
+				var val *big.Int
+				if k < nLow {
+					val = Bip(lowBase + int64(rapid.IntRange(0, 2).Draw(t, "fullLowStep")))
+				} else {
+					val = new(big.Int).Add(Bip(level+int64(k%5)), big.NewInt(int64(k%3)))
+				}
+				hold.add(0, val)
+				c.Stakes = append(c.Stakes, types.Stake{Owner: SyntheticAddr(k), Coin: 0, Value: val.String(), BipValue: val.String()})
+				total.Add(total, val)
+			}
+		}
 		c.TotalBipStake = total.String()
 		g.Candidates = append(g.Candidates, c)
 	}
@@ -702,6 +722,11 @@ func drawOrderVol(t *rapid.T, label string) *big.Int {
 		m := rapid.IntRange(1, 999).Draw(t, label+"Man")
 		return new(big.Int).Mul(big.NewInt(int64(m)), new(big.Int).Exp(big.NewInt(10), big.NewInt(int64(e)), nil))
 	}
+}
+
+// SyntheticAddr is the k-th keyless delegator address of a FullCandidate world.
+func SyntheticAddr(k int) types.Address {
+	return types.Address{0xFA, 0xCE, byte(k >> 8), byte(k)}
 }
 
 // MultisigAddr is a deterministic multisig account address.
